@@ -128,16 +128,21 @@ func (d *MsgPipeline) Start(ctx context.Context, msgMeta *module.MsgMetadata, ma
 	}
 	dd.checkRunner = newCheckRunner(msgMeta, dd.log, d.Resolver)
 	dd.checkRunner.doDMARC = d.doDMARC
+	verifBegin(d, &dd, mailFrom)
 
 	if msgMeta.OriginalRcpts == nil {
 		msgMeta.OriginalRcpts = map[string]string{}
 	}
 
 	if err := dd.start(ctx, msgMeta, mailFrom); err != nil {
+		verifStartFailed(&dd, err)
 		dd.close()
 		return nil, err
 	}
 
+	if w := verifWrapDelivery(&dd); w != nil {
+		return w, nil
+	}
 	return &dd, nil
 }
 
@@ -328,6 +333,7 @@ func (dd *msgpipelineDelivery) AddRcpt(ctx context.Context, to string, opts smtp
 			return wrapErr(err)
 		}
 
+		verifRouted(dd, originalTo, to, rcptBlock)
 		if rcptBlock.rejectErr != nil {
 			return wrapErr(rcptBlock.rejectErr)
 		}
@@ -681,6 +687,7 @@ func (dd *msgpipelineDelivery) getDelivery(ctx context.Context, tgt module.Deliv
 	}
 
 	deliveryObj, err := tgt.Start(ctx, dd.msgMeta, dd.sourceAddr)
+	deliveryObj = verifWrapTarget(dd, tgt, deliveryObj, err)
 	if err != nil {
 		dd.log.Debugf("tgt.Start(%s) failure, target = %s: %v", dd.sourceAddr, objectName(tgt), err)
 		return nil, err
